@@ -74,9 +74,13 @@ type dotEdgeExp struct {
 	Dst   string `json:"dst"`
 	Attrs bool   `json:"attrs"`
 	Fin   bool   `json:"fin"`
-	Micro int    `json:"micro"`
-	Rec   bool   `json:"rec"`
-	Par   []int  `json:"par"`
+	W     struct {
+		Neg bool  `json:"neg"`
+		Ip  int64 `json:"ip"`
+		Fp  int64 `json:"fp"`
+	} `json:"w"`
+	Rec bool  `json:"rec"`
+	Par []int `json:"par"`
 }
 type styleOpt struct {
 	Mode   string `json:"mode"`
@@ -280,7 +284,11 @@ func (t *tables) dotEdgeElem(x *dotEdgeExp) elem {
 		return e
 	}
 	if x.Fin {
-		e["weight"] = "micro:" + strconv.Itoa(x.Micro)
+		m := x.W.Ip*1000000 + x.W.Fp
+		if x.W.Neg {
+			m = -m
+		}
+		e["weight"] = "micro:" + strconv.FormatInt(m, 10)
 	} else {
 		e["weight"] = "raw:+Inf"
 	}
